@@ -1,6 +1,6 @@
 (* C02 proofs, part 3: the pre-walk followed by the print walk refines the one-pass completion. *)
 From Coq Require Import Lia ZifyN ZifyBool.
-From Gv Require Import lib.Bytes lib.Json C02.Model C02.Spec C02.ProofsBase C02.ProofsExt.
+From Gv Require Import lib.Bytes lib.Json C02.Model C02.Spec C02.ProofsBase C02.ProofsPaths C02.ProofsExt.
 Open Scope N_scope.
 
 Lemma key_bytes : forall (c : bool) name x rest, no_special name = true ->
@@ -11,44 +11,37 @@ Proof.
   rewrite <- !app_assoc. f_equal. simpl. f_equal. rewrite <- !app_assoc. reflexivity.
 Qed.
 
-Lemma fpaths_cons : forall name on pon auth child rest,
-  fpaths (Fld name on pon auth child :: rest) =
-  if has_path_kind child then node_path child :: fpaths rest else fpaths rest.
-Proof. intros. unfold fpaths. simpl. destruct (has_path_kind child); reflexivity. Qed.
+Lemma frpaths_incl : forall f rest, incl (frpaths rest) (frpaths (f :: rest)).
+Proof. intros [name on pon auth child] rest x H. rewrite frpaths_cons. apply in_or_app. right. exact H. Qed.
+Lemma frpaths_incl_head : forall name on pon auth child rest,
+  incl (rpaths child) (frpaths (Fld name on pon auth child :: rest)).
+Proof. intros name on pon auth child rest x H. rewrite frpaths_cons. apply in_or_app. left. exact H. Qed.
 
-Lemma fpaths_incl : forall f rest x, In x (fpaths rest) -> In x (fpaths (f :: rest)).
-Proof.
-  intros [name on pon auth child] rest x H. rewrite fpaths_cons.
-  destruct (has_path_kind child); simpl; auto.
-Qed.
+(* an object or list in field position is not read through the key "__typename" *)
+Definition tn_ok (n : node) : Prop :=
+  match n with
+  | NObj p _ _ _ _ _ _ | NArr p _ _ => head_not_typename p = true
+  | _ => True
+  end.
 
-(* what one field may do to the enclosing object *)
-Definition step_frame (child : node) (a b : json) : Prop :=
-  b = a \/ (has_path_kind child = true /\ exists k, node_path child = [k] /\ k <> typename_key /\ mutk k a b).
+(* what the pre-walk of a field value may do to the value of the enclosing object *)
+Definition frame (n : node) (parent parent' : json) : Prop :=
+  (exists m, parent = JObj m) -> tn_ok n -> rewrites (rpaths n) parent parent'.
 
-Lemma step_frame_props : forall child a b, step_frame child a b -> (exists m, a = JObj m) ->
-  (exists m', b = JObj m') /\ typename_of b = typename_of a /\ has_skip_errors b = has_skip_errors a /\
-  (forall q, (has_path_kind child = true -> [q] <> node_path child) -> get_path [q] b = get_path [q] a).
-Proof.
-  intros child a b [-> | [Hk [k [Hp [Hne Hm]]]]] Ha.
-  - repeat split; auto.
-  - split; [eapply mutk_obj; eauto|]. split; [eapply mutk_typename; eauto|].
-    split; [eapply mutk_skip; eauto|].
-    intros q Hq. eapply mutk_get_other; eauto. intros ->. apply (Hq Hk). congruence.
-Qed.
+Lemma head_not_typename_cons : forall k r, head_not_typename (k :: r) = true -> k <> typename_key.
+Proof. intros k r H. cbn [head_not_typename] in H. apply negb_true_iff in H. apply bytes_eqb_neq. exact H. Qed.
 
 Section Refine.
   Variable deny : bytes -> bytes -> bool.
 
   Definition refines (n : node) : Prop :=
-    forall as_item depth, plan_wf as_item depth n = true ->
+    forall depth, plan_wf depth n = true ->
     forall parent path tns parent' errs st res errs',
       prewalk deny n parent path tns = (parent', errs, st) ->
       complete deny n parent path tns = (res, errs') ->
       errs = errs' /\ st <> WPanic /\ (st = WErr -> res = None) /\
       (st = WOk -> exists t, res = Some t /\ render n parent' tns false = (marshal t, false)) /\
-      (as_item = false -> parent' = parent \/
-         ((is_obj_node n || is_arr_node n) = true /\ exists k, node_path n = [k] /\ mutk k parent parent')).
+      frame n parent parent'.
 
   (* ---- unfolding equations for the loops ---- *)
   Lemma pw_items_cons : forall item path' tns it rest i,
@@ -88,7 +81,7 @@ Section Refine.
   Proof. reflexivity. Qed.
 
   Lemma items_ok : forall item nl p path' tns depth,
-    refines item -> plan_wf true depth item = true ->
+    refines item -> plan_wf depth item = true ->
     forall items i items' errs s r errs',
       pw_items deny item path' tns items i = (items', errs, s) ->
       comp_items deny item path' tns items i = (r, errs') ->
@@ -106,7 +99,7 @@ Section Refine.
     - rewrite pw_items_cons in Hp. rewrite comp_items_cons in Hc.
       destruct (prewalk deny item it (path' ++ [PIdx i]) tns) as [[it' e] s0] eqn:Hpw.
       destruct (complete deny item it (path' ++ [PIdx i]) tns) as [res0 e0] eqn:Hcp.
-      destruct (Hitem true depth Hwf _ _ _ _ _ _ _ _ Hpw Hcp) as (He & Hnp & Herr & Hok & _).
+      destruct (Hitem depth Hwf _ _ _ _ _ _ _ _ Hpw Hcp) as (He & Hnp & Herr & Hok & _).
       subst e0.
       destruct (pw_items deny item path' tns rest (i + 1)) as [[rest' e2] s2] eqn:Hpr.
       destruct (comp_items deny item path' tns rest (i + 1)) as [r2 e2'] eqn:Hcr.
@@ -128,8 +121,7 @@ Section Refine.
              assert (render item JNull tns false = (b_null, false)) as Hrd.
              { unfold absorbs_item_error in Habs. apply andb_true_iff in Habs. destruct Habs as [Hoa Hnl].
                assert (has_path_kind item = true) as Hk by (destruct item; try discriminate; reflexivity).
-               apply render_nullish; auto.
-               pose proof (plan_wf_path true depth item Hwf Hk) as Hpi. simpl in Hpi. rewrite Hpi. reflexivity. }
+               apply render_nullish; auto. apply get_path_null. }
              rewrite Hrd, Hrest. reflexivity.
         * inversion Hp; inversion Hc; subst. auto.
       + congruence.
@@ -143,7 +135,10 @@ Section Refine.
         if pw_denied deny auth value then
           let e := [{| ge_kind := EK_UNAUTHORIZED; ge_path := push_names path' (node_path child) |}] in
           if node_nullable child then
-            let '(v2, e2, s2) := pw_fields deny nl p path' tns' rest (pw_null_child child value) in (v2, e ++ e2, s2)
+            match node_path child with
+            | [] => (value, e, Some (false, WPanic))
+            | cp => let '(v2, e2, s2) := pw_fields deny nl p path' tns' rest (pw_null_at cp value) in (v2, e ++ e2, s2)
+            end
           else if nl && (match p with [] => false | _ => true end) then (value, e, Some (true, WOk))
           else (value, e, Some (false, WErr))
         else
@@ -189,33 +184,29 @@ Section Refine.
   Lemma denied_same : forall auth value, pw_denied deny auth value = sp_denied deny auth (typename_of value).
   Proof. intros [a|] value; reflexivity. Qed.
 
-  Lemma comp_fields_ext : forall depth path' tns' tn fs a b,
-    fields_wf depth fs = true ->
-    has_skip_errors a = has_skip_errors b ->
-    (forall q, In [q] (fpaths fs) -> get_path [q] a = get_path [q] b) ->
-    comp_fields deny a path' tns' tn fs = comp_fields deny b path' tns' tn fs.
+  (* the completion of the remaining fields does not see what one field's pre-walk wrote *)
+  Lemma comp_fields_frame : forall path' tns' tn fs ws a b,
+    rewrites ws a b -> (exists m, a = JObj m) ->
+    (forall w q, In w ws -> In q (frpaths fs) -> comparable w q = false) ->
+    comp_fields deny b path' tns' tn fs = comp_fields deny a path' tns' tn fs.
   Proof.
-    intros depth path' tns' tn fs a b. induction fs as [|[name on pon auth child] rest IH]; intros Hwf Hs Hg.
-    - reflexivity.
-    - simpl in Hwf. apply andb_true_iff in Hwf. destruct Hwf as [Hf Hwf].
-      assert (comp_fields deny a path' tns' tn rest = comp_fields deny b path' tns' tn rest) as Hrest.
-      { apply IH; auto. intros q Hq. apply Hg. apply fpaths_incl. exact Hq. }
-      rewrite !comp_fields_cons, Hrest.
-      assert (complete deny child a path' tns' = complete deny child b path' tns') as Hch.
-      { unfold field_wf in Hf. apply andb_true_iff in Hf. destruct Hf as [_ Hcw].
-        apply complete_ext_one; auto.
-        - intros Hk. exact (plan_wf_path false _ _ Hcw Hk).
-        - intros Hk. destruct (plan_wf_path false _ _ Hcw Hk) as [k Hp]. rewrite Hp. apply Hg.
-          rewrite fpaths_cons, Hk, Hp. left. reflexivity. }
-      rewrite Hch. reflexivity.
+    intros path' tns' tn fs ws a b Hrw Hobj Hcross.
+    apply comp_fields_ext.
+    - apply Forall_forall. intros f _. apply complete_ext_gen.
+    - eapply rewrites_same_head; eauto.
+    - intros q Hq.
+      assert (forall w, In w ws -> comparable q w = false) as Hqw.
+      { intros w Hw. rewrite comparable_sym. apply Hcross; auto. }
+      split; [eapply rewrites_get; eauto | intros pth; eapply rewrites_nonnull; eauto].
   Qed.
 
   Lemma field_wf_parts : forall depth name on pon auth child,
     field_wf depth (Fld name on pon auth child) = true ->
     no_special name = true /\
-    (auth <> None -> has_path_kind child = true /\ forall k, node_path child = [k] -> k <> typename_key) /\
-    ((is_obj_node child || is_arr_node child) = true -> forall k, node_path child = [k] -> k <> typename_key) /\
-    plan_wf false (S depth) child = true.
+    (auth <> None -> has_path_kind child = true /\
+                     exists k r, node_path child = k :: r /\ k <> typename_key) /\
+    tn_ok child /\
+    plan_wf (S depth) child = true.
   Proof.
     intros depth name on pon auth child H. unfold field_wf in H.
     apply andb_true_iff in H. destruct H as [H H5].
@@ -224,195 +215,173 @@ Section Refine.
     apply andb_true_iff in H. destruct H as [H1 H2].
     split; [exact H1|]. split; [|split; [|exact H5]].
     - intros Ha. destruct auth as [a|]; [|congruence].
-      apply andb_true_iff in H3. destruct H3 as [Hk Hn]. split; [exact Hk|].
-      intros k Hp. rewrite Hp in Hn. apply negb_true_iff in Hn. apply bytes_eqb_neq. exact Hn.
-    - intros Hoa k Hp. destruct child; try discriminate; cbn [node_path] in Hp; subst;
-        apply negb_true_iff in H4; apply bytes_eqb_neq; exact H4.
-  Qed.
-
-  Lemma distinct_fpaths_tail : forall f rest,
-    distinct_paths (fpaths (f :: rest)) = true -> distinct_paths (fpaths rest) = true.
-  Proof.
-    intros [name on pon auth child] rest H. rewrite fpaths_cons in H.
-    destruct (has_path_kind child); auto. apply distinct_paths_notin in H. tauto.
-  Qed.
-  Lemma distinct_fpaths_head : forall name on pon auth child rest,
-    distinct_paths (fpaths (Fld name on pon auth child :: rest)) = true ->
-    has_path_kind child = true -> ~ In (node_path child) (fpaths rest).
-  Proof.
-    intros name on pon auth child rest H Hk. rewrite fpaths_cons, Hk in H.
-    apply distinct_paths_notin in H. tauto.
+      apply andb_true_iff in H3. destruct H3 as [H3 Hn].
+      apply andb_true_iff in H3. destruct H3 as [Hk Hne]. split; [exact Hk|].
+      destruct (node_path child) as [|k r]; [discriminate Hne|].
+      exists k, r. split; [reflexivity|]. eapply head_not_typename_cons; eauto.
+    - destruct child; cbn [tn_ok]; auto.
   Qed.
 
   Definition fields_post (nl : bool) (p : list bytes) (tns' : list (option bytes)) (fs : list field)
-             (value : json) (tn : option bytes) (value' : json) (errs : list gerr)
+             (value value' : json) (errs : list gerr)
              (s : option (bool * wstatus)) (r : option (list (bytes * json))) (errs' : list gerr) : Prop :=
     errs = errs' /\
-    (exists m', value' = JObj m') /\ typename_of value' = tn /\ has_skip_errors value' = has_skip_errors value /\
-    (forall q, ~ In [q] (fpaths fs) -> get_path [q] value' = get_path [q] value) /\
+    rewrites (frpaths fs) value value' /\
     match s with
     | None => exists l, r = Some l /\
-              forall fin c, (forall q, In [q] (fpaths fs) -> get_path [q] fin = get_path [q] value') ->
+              forall fin c, same_head fin value' ->
+                 (forall q, In q (frpaths fs) -> get_path q fin = get_path q value') ->
                  rd_fields nl fin tns' fs c = (members_bytes c l, false)
     | Some (nulled, st) =>
       r = None /\ nulled = (nl && match p with [] => false | _ => true end) /\ st = (if nulled then WOk else WErr)
     end.
 
-  Lemma fields_step : forall nl p tns' depth name on pon auth child rest value value1 tn t e,
+  Lemma fields_step : forall nl p tns' depth name on pon auth child rest value value1 t e,
     skip_field on pon tns' = false ->
     field_wf depth (Fld name on pon auth child) = true ->
-    distinct_paths (fpaths (Fld name on pon auth child :: rest)) = true ->
-    (exists m, value = JObj m) -> typename_of value = tn ->
-    step_frame child value value1 ->
-    (forall fin, (has_path_kind child = true -> get_path (node_path child) fin = get_path (node_path child) value1) ->
+    (forall w q, In w (rpaths child) -> In q (frpaths rest) -> comparable w q = false) ->
+    (exists m, value = JObj m) ->
+    rewrites (rpaths child) value value1 ->
+    (forall fin, same_head fin value1 ->
+                 (forall q, In q (rpaths child) -> get_path q fin = get_path q value1) ->
                  render child fin tns' false = (marshal t, false)) ->
     forall v2 e2 s2 r2 e2',
-      fields_post nl p tns' rest value1 tn v2 e2 s2 r2 e2' ->
-      fields_post nl p tns' (Fld name on pon auth child :: rest) value tn v2 (e ++ e2) s2
+      fields_post nl p tns' rest value1 v2 e2 s2 r2 e2' ->
+      fields_post nl p tns' (Fld name on pon auth child :: rest) value v2 (e ++ e2) s2
                   (match r2 with Some l => Some ((name, t) :: l) | None => None end) (e ++ e2').
   Proof.
-    intros nl p tns' depth name on pon auth child rest value value1 tn t e Hskip Hfw Hdist Hobj Htn Hstep Hrd
-           v2 e2 s2 r2 e2' (He & Hobj2 & Htn2 & Hsk2 & Hfr2 & Hs2).
-    destruct (step_frame_props _ _ _ Hstep Hobj) as (Hobj1 & Htn1 & Hsk1 & Hget1).
+    intros nl p tns' depth name on pon auth child rest value value1 t e Hskip Hfw Hcross Hobj Hstep Hrd
+           v2 e2 s2 r2 e2' (He & Hrw2 & Hs2).
     destruct (field_wf_parts _ _ _ _ _ _ Hfw) as (Hname & _ & _ & Hcw).
-    assert (forall q, ~ In [q] (fpaths (Fld name on pon auth child :: rest)) ->
-                      ~ In [q] (fpaths rest) /\ (has_path_kind child = true -> [q] <> node_path child)) as Hsplit.
-    { intros q Hq. rewrite fpaths_cons in Hq. destruct (has_path_kind child).
-      - split; [intros Hi; apply Hq; right; exact Hi | intros _ Heq; apply Hq; left; auto].
-      - split; [exact Hq | discriminate]. }
-    split; [subst; reflexivity|]. split; [exact Hobj2|]. split; [exact Htn2|].
-    split; [congruence|]. split.
-    - intros q Hq. destruct (Hsplit q Hq) as [Hq1 Hq2]. rewrite (Hfr2 q Hq1). apply Hget1. exact Hq2.
+    assert (exists m1, value1 = JObj m1) as Hobj1 by (eapply rewrites_obj; eauto).
+    split; [subst; reflexivity|]. split.
+    - eapply rewrites_trans.
+      + eapply rewrites_mono; [apply frpaths_incl_head | exact Hstep].
+      + eapply rewrites_mono; [apply frpaths_incl | exact Hrw2].
     - destruct s2 as [[nulled st]|].
       + destruct Hs2 as (-> & Hn & Hst). auto.
       + destruct Hs2 as (l & -> & Hrest). exists ((name, t) :: l). split; [reflexivity|].
-        intros fin c Hagree. rewrite rd_fields_cons, Hskip. cbv zeta.
+        intros fin c Hhead Hagree. rewrite rd_fields_cons, Hskip. cbv zeta.
         rewrite Hrd.
         * rewrite Hrest.
           -- cbn [members_bytes]. rewrite key_bytes by exact Hname. reflexivity.
-          -- intros q Hq. apply Hagree. apply fpaths_incl. exact Hq.
-        * intros Hk. destruct (plan_wf_path false _ _ Hcw Hk) as [k Hp]. rewrite Hp.
-          rewrite (Hagree k) by (rewrite fpaths_cons, Hk, Hp; left; reflexivity).
-          apply Hfr2. rewrite <- Hp. eapply distinct_fpaths_head; eauto.
+          -- exact Hhead.
+          -- intros q Hq. apply Hagree. apply frpaths_incl. exact Hq.
+        * eapply same_head_trans; [exact Hhead|]. eapply rewrites_same_head; eauto.
+        * intros q Hq. rewrite (Hagree q) by (apply frpaths_incl_head; exact Hq).
+          eapply rewrites_get; eauto.
   Qed.
 
-  Lemma fields_post_skip : forall nl p tns' name on pon auth child rest value tn v2 e2 s2 r2 e2',
+  Lemma fields_post_skip : forall nl p tns' name on pon auth child rest value v2 e2 s2 r2 e2',
     skip_field on pon tns' = true ->
-    fields_post nl p tns' rest value tn v2 e2 s2 r2 e2' ->
-    fields_post nl p tns' (Fld name on pon auth child :: rest) value tn v2 e2 s2 r2 e2'.
+    fields_post nl p tns' rest value v2 e2 s2 r2 e2' ->
+    fields_post nl p tns' (Fld name on pon auth child :: rest) value v2 e2 s2 r2 e2'.
   Proof.
-    intros nl p tns' name on pon auth child rest value tn v2 e2 s2 r2 e2' Hskip
-           (He & Hobj2 & Htn2 & Hsk2 & Hfr2 & Hs2).
-    split; [exact He|]. split; [exact Hobj2|]. split; [exact Htn2|]. split; [exact Hsk2|]. split.
-    - intros q Hq. apply Hfr2. intros Hi. apply Hq. apply fpaths_incl. exact Hi.
+    intros nl p tns' name on pon auth child rest value v2 e2 s2 r2 e2' Hskip (He & Hrw2 & Hs2).
+    split; [exact He|]. split.
+    - eapply rewrites_mono; [apply frpaths_incl | exact Hrw2].
     - destruct s2 as [[nulled st]|]; [exact Hs2|].
       destruct Hs2 as (l & -> & Hrest). exists l. split; [reflexivity|].
-      intros fin c Hagree. rewrite rd_fields_cons, Hskip. apply Hrest.
-      intros q Hq. apply Hagree. apply fpaths_incl. exact Hq.
+      intros fin c Hhead Hagree. rewrite rd_fields_cons, Hskip. apply Hrest; auto.
+      intros q Hq. apply Hagree. apply frpaths_incl. exact Hq.
   Qed.
 
-  Lemma fields_post_stop : forall nl p tns' fs value tn value1 e,
-    (exists m, value = JObj m) -> typename_of value = tn ->
-    (exists m', value1 = JObj m') -> typename_of value1 = typename_of value ->
-    has_skip_errors value1 = has_skip_errors value ->
-    (forall q, ~ In [q] (fpaths fs) -> get_path [q] value1 = get_path [q] value) ->
-    fields_post nl p tns' fs value tn value1 e
+  Lemma fields_post_stop : forall nl p tns' fs value value1 e,
+    rewrites (frpaths fs) value value1 ->
+    fields_post nl p tns' fs value value1 e
       (Some (if nl && match p with [] => false | _ => true end then (true, WOk) else (false, WErr))) None e.
   Proof.
-    intros nl p tns' fs value tn value1 e Hobj Htn Hobj1 Htn1 Hsk1 Hfr1.
-    split; [reflexivity|]. split; [exact Hobj1|]. split; [congruence|]. split; [exact Hsk1|].
-    split; [exact Hfr1|].
+    intros nl p tns' fs value value1 e Hrw.
+    split; [reflexivity|]. split; [exact Hrw|].
     destruct (nl && match p with [] => false | _ => true end); auto.
   Qed.
 
   Lemma fields_ok : forall nl p path' tns' depth fs,
     Forall (fun f => refines (fval f)) fs ->
-    fields_wf depth fs = true -> distinct_paths (fpaths fs) = true ->
+    fields_wf depth fs = true -> incomparable_all (frpaths fs) = true ->
     forall value tn, typename_of value = tn -> (exists m, value = JObj m) ->
     forall value' errs s r errs',
       pw_fields deny nl p path' tns' fs value = (value', errs, s) ->
       comp_fields deny value path' tns' tn fs = (r, errs') ->
-      fields_post nl p tns' fs value tn value' errs s r errs'.
+      fields_post nl p tns' fs value value' errs s r errs'.
   Proof.
     intros nl p path' tns' depth fs. induction fs as [|[name on pon auth child] rest IH];
       intros HF Hwf Hdist value tn Htn Hobj value' errs s r errs' Hp Hc.
     - simpl in Hp, Hc. inversion Hp; inversion Hc; subst.
-      split; [reflexivity|]. split; [exact Hobj|]. split; [reflexivity|]. split; [reflexivity|].
-      split; [reflexivity|]. exists []. split; [reflexivity|]. intros fin c _. reflexivity.
+      split; [reflexivity|]. split; [apply rw_refl|].
+      exists []. split; [reflexivity|]. intros fin c _ _. reflexivity.
     - pose proof (Forall_inv HF) as Hchild. cbn [fval] in Hchild. pose proof (Forall_inv_tail HF) as HFrest.
-      pose proof Hwf as Hwf0.
       change (field_wf depth (Fld name on pon auth child) && fields_wf depth rest = true) in Hwf.
       apply andb_true_iff in Hwf. destruct Hwf as [Hfw Hwfrest].
-      pose proof (distinct_fpaths_tail _ _ Hdist) as Hdrest.
-      destruct (field_wf_parts depth name on pon auth child Hfw) as (Hname & Hauthwf & Hoawf & Hcw).
+      rewrite frpaths_cons in Hdist.
+      destruct (incomparable_all_app _ _ Hdist) as (_ & Hdrest & Hcross).
+      destruct (field_wf_parts depth name on pon auth child Hfw) as (Hname & Hauthwf & Htnok & Hcw).
       rewrite pw_fields_cons in Hp. rewrite comp_fields_cons in Hc.
       destruct (skip_field on pon tns') eqn:Hskip.
       { apply fields_post_skip; [exact Hskip|]. eapply IH; eauto. }
       rewrite denied_same, Htn in Hp.
-      (* continuing with the remaining fields from a value that differs at this field's key only *)
+      (* continuing with the remaining fields from a value rewritten below this field's paths only *)
       assert (forall value1 t e v2 e2 s2 r2 e2',
-                 step_frame child value value1 ->
-                 (forall fin, (has_path_kind child = true ->
-                               get_path (node_path child) fin = get_path (node_path child) value1) ->
+                 rewrites (rpaths child) value value1 ->
+                 (forall fin, same_head fin value1 ->
+                              (forall q, In q (rpaths child) -> get_path q fin = get_path q value1) ->
                               render child fin tns' false = (marshal t, false)) ->
                  pw_fields deny nl p path' tns' rest value1 = (v2, e2, s2) ->
                  comp_fields deny value path' tns' tn rest = (r2, e2') ->
-                 fields_post nl p tns' (Fld name on pon auth child :: rest) value tn v2 (e ++ e2) s2
+                 fields_post nl p tns' (Fld name on pon auth child :: rest) value v2 (e ++ e2) s2
                    (match r2 with Some l => Some ((name, t) :: l) | None => None end) (e ++ e2')) as Hcont.
       { intros value1 t e v2 e2 s2 r2 e2' Hstep Hrd Hp2 Hc2.
-        destruct (step_frame_props _ _ _ Hstep Hobj) as (Hobj1 & Htn1 & Hsk1 & Hget1).
         eapply fields_step; eauto.
-        eapply IH; eauto; [congruence|].
-        rewrite <- Hc2. apply comp_fields_ext with (depth := depth); auto.
-        intros q Hq. apply Hget1. intros Hk Heq. rewrite Heq in Hq.
-        exact (distinct_fpaths_head _ _ _ _ _ _ Hdist Hk Hq). }
+        assert (typename_of value1 = tn) as Htn1 by (rewrite (rewrites_typename _ _ _ Hstep); exact Htn).
+        assert (exists m1, value1 = JObj m1) as Hobj1 by (eapply rewrites_obj; eauto).
+        apply (IH HFrest Hwfrest Hdrest value1 tn Htn1 Hobj1 _ _ _ _ _ Hp2).
+        rewrite <- Hc2. eapply comp_fields_frame; eauto. }
       destruct (sp_denied deny auth tn) eqn:Hden.
       + assert (auth <> None) as Hauth by (destruct auth; [discriminate | discriminate Hden]).
-        destruct (Hauthwf Hauth) as [Hk Hkey].
-        destruct (plan_wf_path false _ _ Hcw Hk) as [k Hpk].
+        destruct (Hauthwf Hauth) as (Hk & k & pr & Hpk & Hkne).
+        assert (rpaths child = [k :: pr]) as Hrp.
+        { rewrite <- Hpk. apply rpaths_own; auto. rewrite Hpk. discriminate. }
         destruct (node_nullable child) eqn:Hnl.
-        * destruct (pw_fields deny nl p path' tns' rest (pw_null_child child value)) as [[v2 e2] s2] eqn:Hp2.
+        * rewrite Hpk in Hp.
+          destruct (pw_fields deny nl p path' tns' rest (pw_null_at (k :: pr) value)) as [[v2 e2] s2] eqn:Hp2.
           destruct (comp_fields deny value path' tns' tn rest) as [r2 e2'] eqn:Hc2.
           cbv zeta in Hp, Hc. inversion Hp; inversion Hc; subst value' errs s r errs'.
-          assert (step_frame child value (pw_null_child child value) /\
-                  is_null_or_missing (get_path [k] (pw_null_child child value)) = true) as [Hstep Hnull].
-          { unfold pw_null_child. rewrite Hpk. destruct (get_path [k] value) as [x|] eqn:Hg.
+          assert (rewrites (rpaths child) value (pw_null_at (k :: pr) value) /\
+                  is_null_or_missing (get_path (k :: pr) (pw_null_at (k :: pr) value)) = true) as [Hstep Hnull].
+          { unfold pw_null_at. destruct (get_path (k :: pr) value) as [x|] eqn:Hg.
             - split.
-              + right. split; [exact Hk|]. exists k. split; [exact Hpk|]. split; [apply Hkey; exact Hpk|].
-                eapply mutk_set; eauto.
-              + erewrite mutk_get_same by eauto. reflexivity.
-            - split; [left; reflexivity | rewrite Hg; reflexivity]. }
+              + apply rewrites_one; [rewrite Hrp; left; reflexivity | exact Hkne | congruence].
+              + rewrite get_set_same by congruence. reflexivity.
+            - split; [apply rw_refl | rewrite Hg; reflexivity]. }
+          rewrite <- Hpk.
           eapply (Hcont _ JNull [{| ge_kind := EK_UNAUTHORIZED; ge_path := push_names path' (node_path child) |}]); eauto.
-          intros fin Hfin. apply render_nullish; auto. rewrite (Hfin Hk), Hpk. exact Hnull.
+          intros fin _ Hfin. apply render_nullish; auto.
+          rewrite Hpk, (Hfin (k :: pr)) by (rewrite Hrp; left; reflexivity). exact Hnull.
         * cbv zeta in Hp, Hc.
           assert ((value', errs, s) = (value, [{| ge_kind := EK_UNAUTHORIZED; ge_path := push_names path' (node_path child) |}],
                    Some (if nl && match p with [] => false | _ => true end then (true, WOk) else (false, WErr)))) as Hp'.
           { rewrite <- Hp. destruct (nl && match p with [] => false | _ => true end); reflexivity. }
           inversion Hp'; inversion Hc; subst value' errs s r errs'.
-          apply fields_post_stop; auto.
+          apply fields_post_stop. apply rw_refl.
       + destruct (prewalk deny child value path' tns') as [[value1 e] s0] eqn:Hpw.
         destruct (complete deny child value path' tns') as [res0 e0] eqn:Hcp.
-        destruct (Hchild false (S depth) Hcw _ _ _ _ _ _ _ _ Hpw Hcp) as (He & Hnp & Herr & Hok & Hfr).
+        destruct (Hchild (S depth) Hcw _ _ _ _ _ _ _ _ Hpw Hcp) as (He & Hnp & Herr & Hok & Hfr).
         subst e0.
-        assert (step_frame child value value1) as Hstep.
-        { destruct (Hfr eq_refl) as [-> | [Hoa [k [Hpk Hm]]]]; [left; reflexivity|].
-          right. split; [destruct child; try discriminate; reflexivity|].
-          exists k. split; [exact Hpk|]. split; [apply Hoawf; auto | exact Hm]. }
+        pose proof (Hfr Hobj Htnok) as Hstep.
         destruct s0.
         * destruct (Hok eq_refl) as (t & -> & Hrd).
           destruct (pw_fields deny nl p path' tns' rest value1) as [[v2 e2] s2] eqn:Hp2.
           destruct (comp_fields deny value path' tns' tn rest) as [r2 e2'] eqn:Hc2.
           inversion Hp; inversion Hc; subst value' errs s r errs'.
           eapply Hcont; eauto.
-          intros fin Hfin. rewrite <- Hrd. apply render_ext. exact Hfin.
+          intros fin Hhead Hfin. rewrite <- Hrd. apply render_ext_gen; auto.
         * rewrite (Herr eq_refl) in Hc.
           assert ((value', errs, s) = (value1, e,
                    Some (if nl && match p with [] => false | _ => true end then (true, WOk) else (false, WErr)))) as Hp'.
           { rewrite <- Hp. destruct (nl && match p with [] => false | _ => true end); reflexivity. }
           inversion Hp'; inversion Hc; subst value' errs s r errs'.
-          destruct (step_frame_props _ _ _ Hstep Hobj) as (Hobj1 & Htn1 & Hsk1 & Hget1).
-          apply fields_post_stop; auto.
-          intros q Hq. apply Hget1. intros Hk Heq. apply Hq. rewrite fpaths_cons, Hk, Heq. left. reflexivity.
+          apply fields_post_stop.
+          eapply rewrites_mono; [apply frpaths_incl_head | exact Hstep].
         * congruence.
   Qed.
 End Refine.
